@@ -24,6 +24,9 @@ def trust(rng, ty):
         return 0.0
     if r == 1:
         return 1.0
+    if r == 2:
+        # almost full trust: 1 - 2^-k, well inside sqrt(machine epsilon) of 1 yet far above 1 - eps
+        return 1.0 - 2.0 ** -(rng.choice([12, 13, 15, 18, 21]) if ty == "f32" else rng.choice([12, 20, 27, 30, 35, 45]))
     if r < 6:
         return rng.below(65) / 64.0
     return num.rnd(ty, rng.unit())
